@@ -7,7 +7,7 @@ From RtoscV Require ArgVal.AvModel.
 From RtoscV Require Import Save.TopoModel Save.SaveModel Save.SaveProofs Save.RoundProofs Save.RoundFull Save.PermApp Save.SortStage Save.EqStage Save.SaveRegress.
 From RtoscV Require Import Ports.WalkModel Ports.DispatchModel Ports.TreeProofs Ports.DispatchWalk Ports.NamesModel.
 From RtoscV Require Import Save.TreeApp Save.DispatchStage Save.TreeStage Save.WalkStage Save.TreePipeline.
-From RtoscV Require Pretty.Tok Pretty.PrintModel Pretty.ScanModel Pretty.RunProofs Pretty.ListProofs.
+From RtoscV Require Pretty.Tok Pretty.PrintModel Pretty.ScanModel Pretty.PrettyProofs Pretty.RunProofs Pretty.ListProofs Pretty.ArrayProofs.
 From RtoscV Require Import Save.PrintStage Save.PrintLines Save.PipelineReal.
 Import ListNotations.
 Local Open Scope Z_scope.
@@ -482,3 +482,67 @@ Theorem C12_roundtrip_tree_real_nonvacuous : forall (dec2f dec2d : list Z -> Z),
     = Some [47; 101; 32; 116; 114; 117; 101; 10;  47; 115; 47; 120; 32; 57; 10] /\
   Forall (line_reads dec2f dec2d opts_default) (save_lines a fx_state2).
 Proof. exact roundtrip_tree_real_nonvacuous. Qed.
+
+(* ======================================================================== *)
+(* Stage 6: the lines of every parameter kind                                  *)
+(* ======================================================================== *)
+(* C12_message_reads_tl over C10's widened class (stage 6 of C10): bare symbols, blobs, and
+   with the lossless option every finite float / double; +0.0 and -0.0 of one type not both
+   in the list ([nozmix], the predicate of C10's finding class signed-zero-run) *)
+Theorem C12_message_reads_tl_any : forall (dec2f dec2d : list Z -> Z) o addr vs text w,
+  PrintModel.compress o = true -> RunProofs.good_addr addr -> Forall (ListProofs.goodv o) vs ->
+  ListProofs.nozmix vs -> Z.of_nat (length vs) < 2 ^ 31 ->
+  PrintModel.print_message o addr vs 0 = Some (text, w) ->
+  exists slots,
+    PrintModel.expand slots = Some vs /\ (exists sfx, text = addr ++ sfx) /\
+    forall tl, tail_ok tl ->
+    ScanModel.count_printed_arg_vals_of_msg dec2f dec2d (text ++ 10 :: tl)
+      = ScanModel.Ok (true, Z.of_nat (length slots)) /\
+    ScanModel.scan_message dec2f dec2d (text ++ 10 :: tl) (Z.of_nat (length slots))
+      = ScanModel.Ok (addr, slots, tl).
+Proof. exact message_reads_tl_nz. Qed.
+
+(* a message with ONE value - the line of a scalar port - for ANY option record and every
+   value C10 has a token theorem for: no condition on dots (fewer than five values are never
+   compressed, no range tail can follow), both zeroes *)
+Theorem C12_one_message_reads_tl : forall (dec2f dec2d : list Z -> Z) o addr v text w,
+  RunProofs.good_addr addr -> good1 o v ->
+  PrintModel.print_message o addr [v] 0 = Some (text, w) ->
+  (exists sfx, text = addr ++ sfx) /\
+  forall tl, tail_ok tl ->
+    ScanModel.count_printed_arg_vals_of_msg dec2f dec2d (text ++ 10 :: tl) = ScanModel.Ok (true, 1) /\
+    ScanModel.scan_message dec2f dec2d (text ++ 10 :: tl) 1 = ScanModel.Ok (addr, [v], tl).
+Proof. exact one_message_reads_tl. Qed.
+
+(* a message whose values are ONE array "[e1 e2 ...]" - the line of a "name#N" port - for any
+   option record: the scanner writes the array header and slots that expand to the elements *)
+Theorem C12_array_message_reads_tl : forall (dec2f dec2d : list Z -> Z) o addr ty elems text w,
+  RunProofs.good_addr addr -> Forall (ListProofs.goodv o) elems -> ListProofs.nozmix elems ->
+  ArrayProofs.homog elems -> elems <> [] -> Z.of_nat (length elems) + 1 < 2 ^ 31 ->
+  PrintModel.print_message o addr (Tok.VArr ty (Z.of_nat (length elems)) :: elems) 0 = Some (text, w) ->
+  exists ty' slots,
+    PrintModel.expand slots = Some elems /\ (exists sfx, text = addr ++ sfx) /\
+    forall tl, tail_ok tl ->
+    ScanModel.count_printed_arg_vals_of_msg dec2f dec2d (text ++ 10 :: tl)
+      = ScanModel.Ok (true, 1 + Z.of_nat (length slots)) /\
+    ScanModel.scan_message dec2f dec2d (text ++ 10 :: tl) (1 + Z.of_nat (length slots))
+      = ScanModel.Ok (addr, Tok.VArr ty' (Z.of_nat (length slots)) :: slots, tl).
+Proof. exact array_message_reads_tl_nz. Qed.
+
+(* the printer's model is total on one-value lines, compression on or off *)
+Theorem C12_scalar_line_prints : forall o l x, l_array l = false -> l_vals l = [x] ->
+  exists t w, PrintModel.print_message o (l_path l) (line_avs l) 0 = Some (t, w).
+Proof. exact scalar_line_prints. Qed.
+
+(* a saved line of the class [good_line] reads back, whatever message follows it:
+     scalar port:  one value - 32-bit int, char 0..255, finite float (both zeroes), T/F, string or
+                   quoted symbol without NUL, bare symbol                          [good_scalar1]
+     name#N port:  one non-empty array of elements of one type ([homog]; T and F are one type),
+                   each an int, char other than '.', finite float, T/F, string / quoted symbol
+                   without NUL and '.', bare symbol [good_elem]; +0.0 and -0.0 not both [nozmix]
+   Excluded: NaN, infinities; arrays mixing types; C10's two list-level findings inside arrays. *)
+Theorem C12_good_line_reads : forall (dec2f dec2d : list Z -> Z) o l,
+  PrintModel.lossless o = true -> good_line l ->
+  (l_array l = true -> exists t w, PrintModel.print_message o (l_path l) (line_avs l) 0 = Some (t, w)) ->
+  line_reads dec2f dec2d o l.
+Proof. exact good_line_reads. Qed.
